@@ -38,10 +38,10 @@ struct Table {
 /// separated by single blanks; "..." marks truncation; "(exact)" means uncertainty 0.
 fn parse_table() -> Table {
     let mut t = Table { rows: vec![], by_name: HashMap::new(), err: None };
-    let txt = match std::fs::read_to_string("/repo/codata.txt") {
+    let txt = match std::fs::read_to_string(repo_root().join("codata.txt")) {
         Ok(s) => s,
         Err(e) => {
-            t.err = Some(format!("cannot read /repo/codata.txt: {e}"));
+            t.err = Some(format!("cannot read codata.txt: {e}"));
             return t;
         }
     };
